@@ -10,7 +10,7 @@
     positive multiples of unit vectors (met by the executable [heading_exact]). *)
 From Coq Require Import List Bool Arith ZArith QArith Qcanon.
 From PTBase Require Import Exn.
-From P Require Import Rectgeo GeoFacts Forward Main Regen Final Heading Trim FinalTrim Witness.
+From P Require Import Rectgeo GeoFacts Forward Main Regen Final Heading Trim FinalTrim FileSim FileGrid FinalFile Witness.
 Import ListNotations.
 Open Scope Qc_scope.
 
@@ -164,3 +164,55 @@ Theorem no_snap_when_top_blocks_high : forall g, wf g -> forall snap,
   forall i j, (i < nx g)%nat -> (j < ny g)%nat -> snap_surface g snap (gsurf g i j) = gsurf g i j.
 Proof. exact nosnap_high_tops. Qed.
 Print Assumptions no_snap_when_top_blocks_high.
+
+(** ** after a data file (t2data.write / t2data(filename)): volumes, distances, areas keep 5 significant digits,
+    block centres 4 (FileGrid.v [rnd], [file_grid]).  Provided the file keeps every volume on its side of the
+    volume window and the order of the block elevations, rectgeo on the re-read grid returns each spacing d as
+    2 * rnd5(d / 2): exactly d when d / 2 has at most 5 significant digits, within the field's accuracy otherwise.
+    (3-D grids; position, orientation and surfaces after a file: correspondence and oracle only.) *)
+Theorem rectgeo_after_data_file : forall K keqb g (nm nm' : cid -> K) av snap, in_class keqb g nm nm' av snap ->
+  (2 <= nx g)%nat -> (2 <= ny g)%nat ->
+  forall cn, cn_ok K g nm cn ->
+  (forall b, In b (blocks (grid_of g nm cn)) -> vol_ok (Some av) (rnd 5 (bvol b)) = vol_ok (Some av) (bvol b)) ->
+  (forall b b' z z', In b (blocks (grid_of g nm cn)) -> In b' (blocks (grid_of g nm cn)) -> elev K None b = Some z -> elev K None b' = Some z' ->
+     qlt (rnd 4 z) (rnd 4 z') = qlt z z') ->
+  forall heading, exists r,
+    rectgeo K keqb heading true true (file_grid K (grid_of g nm cn)) None av false snap (gatm g) nm' = Ok r /\
+    r_dx r = map file_spacing (gdx g) /\ r_dy r = map file_spacing (gdy g) /\ r_dz r = map file_spacing (gdz g).
+Proof. exact rectgeo_after_data_file_lemma. Qed.
+Print Assumptions rectgeo_after_data_file.
+Theorem file_spacing_exact : forall l : list Qc, (forall d, In d l -> rnd 5 (d * half) = d * half) -> map file_spacing l = l.
+Proof. exact file_spacing_exact_lemma. Qed.
+Print Assumptions file_spacing_exact.
+Theorem file_spacing_error : forall eps d,
+  d * half - eps * (d * half) <= rnd 5 (d * half) -> rnd 5 (d * half) <= d * half + eps * (d * half) ->
+  d - eps * d <= file_spacing d /\ file_spacing d <= d + eps * d.
+Proof. exact file_spacing_error_lemma. Qed.
+Print Assumptions file_spacing_error.
+
+(** ** rectgeo reads its grid (by construction in the model; checked on the implementation by the oracle) *)
+Theorem rectgeo_function_of_grid : forall K keqb heading fxp fx2 (g1 g2 : grid K) obk av rminact snap atm' nm',
+  blocks g1 = blocks g2 -> conns g1 = conns g2 -> (forall k, cnames g1 k = cnames g2 k) ->
+  (forall k, cnames g1 k = cnames g2 k) /\
+  (g1 = g2 -> rectgeo K keqb heading fxp fx2 g1 obk av rminact snap atm' nm' = rectgeo K keqb heading fxp fx2 g2 obk av rminact snap atm' nm').
+Proof. exact (@rectgeo_function_of_grid_lemma). Qed.
+Print Assumptions rectgeo_function_of_grid.
+
+(** ** gravity cosines: -1 on vertical connections, 0 between blocks at equal elevation, and the regenerated
+    grid has the original ones (they are fields of the connections [rectgeo_blockmap_regenerates] equates) *)
+Theorem vertical_dircos : forall g l, link_shape g l -> ldir l = 3%nat -> ldcn l = neg1 /\ ldcr l = 1.
+Proof. exact vertical_dircos_lemma. Qed.
+Print Assumptions vertical_dircos.
+Theorem horizontal_dircos_level : forall g k i j, zc g k (S i) j = zc g k i j -> ldcn (xlink g k i j) = 0.
+Proof. exact horizontal_dircos_level_lemma. Qed.
+Print Assumptions horizontal_dircos_level.
+Theorem regenerated_dircos : forall K (f nm : cid -> K) g' g, rect_conns f g' = rect_conns nm g ->
+  map (fun c => (ka c, kb c, kdcn c, kdcr c)) (rect_conns f g') = map (fun c => (ka c, kb c, kdcn c, kdcr c)) (rect_conns nm g).
+Proof. exact (@regenerated_dircos_lemma). Qed.
+Print Assumptions regenerated_dircos.
+(** the hypotheses of [rectgeo_after_data_file] are satisfiable, and on this geometry the file loses nothing *)
+Theorem data_file_class_inhabited : exists r,
+  rectgeo cid cid_eqb heading_exact true true (file_grid cid (grid_of w5 idn (cn_canonical cid_eqb w5 idn))) None (q 1000) false 0 2 idn = Ok r /\
+  r_dx r = [q 1; q 2] /\ r_dy r = [q 3; q 1] /\ r_dz r = [q 1; q 2].
+Proof. exact w5_after_file. Qed.
+Print Assumptions data_file_class_inhabited.
